@@ -348,6 +348,29 @@ def dlStep (cfg : DynList.Cfg) (hs : List Nat) (s : DynList.St) (sel scr : Bool)
       (DynExec.runPrevItem DynExec.genBodies (DynList.builder hs) s)
   | ["keyk"] => moved (DynList.prevItem hs s) true
       (DynExec.runCaptureEvent DynExec.genBodies (DynList.builder hs) false (DynExec.keyEv ["'k'"]) s)
+  | [evk, kind] =>
+    if evk = "ev" ∨ evk = "dev" then
+      let dis := evk = "dev"
+      -- what the event is for the interpreter, whether it goes to CaptureEvent, and what the model does
+      let (ev, toCapture, res) : DynExec.Ev × Bool × (DynList.St × Bool) :=
+        match kind with
+        | "j" => (DynExec.keyEv ["'j'"], true, DynList.nextItem hs s)
+        | "down" => (DynExec.keyEv ["vaxis.KeyDown"], true, DynList.nextItem hs s)
+        | "k" => (DynExec.keyEv ["'k'"], true, DynList.prevItem hs s)
+        | "up" => (DynExec.keyEv ["vaxis.KeyUp"], true, DynList.prevItem hs s)
+        | "x" => (DynExec.keyEv [], true, (s, false))
+        | "wheeldown" => (DynExec.wheelDownEv, false, DynList.wheelDown s)
+        | "wheelup" => (DynExec.wheelUpEv, false, DynList.wheelUp s)
+        | "left" => (⟨"vaxis.Mouse", "vaxis.MouseLeftButton", []⟩, false, (s, false))
+        | "keytohandle" => (DynExec.keyEv ["'j'"], false, (s, false))
+        | "mousetocapture" => (DynExec.wheelDownEv, true, (s, false))
+        | _ => (⟨"vaxis.FocusIn", "", []⟩, false, (s, false))
+      let res := if dis then (s, false) else res
+      let isSel := !dis && (kind = "j" || kind = "down" || kind = "k" || kind = "up")
+      moved res isSel
+        (if toCapture then DynExec.runCaptureEvent DynExec.genBodies (DynList.builder hs) dis ev s
+         else DynExec.runHandleEvent DynExec.genBodies (DynList.builder hs) dis ev s)
+    else (.dead, bad)
   | ["wheeldown"] => moved (DynList.wheelDown s) false
       (DynExec.runHandleEvent DynExec.genBodies (DynList.builder hs) false DynExec.wheelDownEv s)
   | ["wheelup"] => moved (DynList.wheelUp s) false
